@@ -24,6 +24,7 @@ type Spec struct {
 	Transit     bool // add a package that receives values of annotated types only through an intermediate package
 	Unrelated   bool // add an annotated package that nothing imports
 	FlipDecl    bool // unused
+	SameNames   bool // the second declaring package and one using package are DECLARED with the same package name as the first declaring package (imports need aliases)
 	Exotic      bool // add a file of valid Go shapes outside the supported fragment (generics, embedding, aliases of predeclared types, labels, method expressions ...): FREE for every analyzer, hostile input for totality
 }
 
@@ -101,13 +102,23 @@ func Build(spec Spec) *Built {
 	if spec.Twin {
 		d1name = "dz" // same length as "d0": the two type files can then be byte-identical up to the package name
 	}
+	if spec.SameNames {
+		d1name = "d0"
+	}
 	d1 := b.NewPkg("m/sub/d1x", "sub/d1x", d1name)
 	u0 := b.NewPkg("m/u0", "u0", "u0")
 	u1 := b.NewPkg("m/app/u1", "app/u1", "u1")
-	u2 := b.NewPkg("m/u2", "u2", "ualt")
+	u2name := "ualt"
+	if spec.SameNames {
+		u2name = "d0" // an importer whose own package name equals the name of the package it imports
+	}
+	u2 := b.NewPkg("m/u2", "u2", u2name)
 	bt.DPkgs = []*Pkg{d0, d1}
 	bt.UPkgs = []*Pkg{u0, u1, u2}
 	allowPool := []string{"u0", "m/u0", "u1", "m/app/u1", "ualt", "m/u2", "u2", "app/u1", "zzz", "m/d0", d1name}
+	if spec.SameNames {
+		allowPool = []string{"u0", "m/u0", "u1", "m/app/u1", "m/u2", "u2", "app/u1", "zzz", "m/d0", "m/sub/d1x"}
+	}
 
 	all := spec.MinimalAnn == 1
 	coin := func(num, den int) bool { return all || r.Chance(num, den) }
@@ -470,6 +481,7 @@ func Build(spec Spec) *Built {
 		if ui == 2 {
 			fa.Rename["m/d0"] = "dzero" // renamed import
 		}
+
 		usedNames := map[string]bool{}
 		holder := b.d("hold")
 		fa.Decls = append(fa.Decls, &Node{Pre: []*Line{b.line("type " + holder + " struct{}")}})
@@ -743,6 +755,21 @@ func Build(spec Spec) *Built {
 		}
 		un, _ := b.FuncNode(z0, "Use", false, nil, zf, body)
 		zf.Decls = append(zf.Decls, un)
+	}
+	if spec.SameNames {
+		for _, pk := range p.Pkgs {
+			for _, f := range pk.Files {
+				if f.Rename == nil {
+					f.Rename = map[string]string{}
+				}
+				if pk.Path != "m/sub/d1x" {
+					f.Rename["m/sub/d1x"] = "dsecond"
+				}
+				if pk.Name == "d0" && pk.Path != "m/d0" {
+					f.Rename["m/d0"] = "dzero"
+				}
+			}
+		}
 	}
 	for _, d := range bt.DPkgs {
 		var keep []*File
